@@ -1819,8 +1819,9 @@ def judge(rec, case: dict, rows: list[dict], info: dict) -> tuple | None:  # noq
         if hit and any(d["path"] == w or d["path"].startswith(w + ".") for d in ds for w in iw):
             rec.count("edits_behind_reexport_spelled_in_compound_statement_reported")
         if not hit:
+            fid = ID_GUARD_SWITCH if type_guard_switch_hid_old_attribute(case, canonical, [d["path"] for d in ds]) else None
             return (f"public object {canonical} ({kind}) changed on public path(s) {sorted(d['path'] for d in ds)} but no such breakage is reported",
-                    rows, ds)
+                    rows, ds, fid)
     for r in rows:
         ok = any(d["kind"] in (r["kind"], "*")
                  and (r["path"] == d["path"] or r["canonical"] in (d["canonical"], d.get("new_canonical")) or r["path"] == d["canonical"])
@@ -1849,23 +1850,15 @@ def judge(rec, case: dict, rows: list[dict], info: dict) -> tuple | None:  # noq
 ID_GUARD_SWITCH = "C11-attribute-bound-in-both-branches-of-type-checking-switch-not-runtime"
 
 
-def type_guard_switch_hides_attribute(case: dict, row: dict, allowed: list) -> bool:
-    """Classifier of ID_GUARD_SWITCH (tight: every clause is read from the case's own sources with CPython's ast).
-
-    The unjustified 'removed' is reported on a re-export path of an object that still exists in the new version but
-    changed kind there (an allowed difference of kind 're-kinded' on that very path), and in the new sources the module
-    defining it binds the name as an ATTRIBUTE in the body of an `if` on TYPE_CHECKING and again in that `if`'s else
-    branch (or a branch of the `elif` chain it is spelled as): Griffe keeps the first (type-guarded) binding, flags the attribute as not available at runtime, and
-    wildcard imports of the module no longer deliver it."""
+def switch_bound_attribute(files: dict, canonical: str) -> bool:
+    """True when the module defining `canonical` binds that name, in `files`, as an ATTRIBUTE in the body of an `if` on
+    TYPE_CHECKING and again in that statement's else branch (or a branch of the `elif` chain it is spelled as): read
+    with CPython's ast from the case's own sources."""
     import ast
 
-    same_path = [d for d in allowed if d["path"] == row["path"] and d["kind"] == "Public object points to a different kind of object"]
-    if not same_path or row["path"] == row["canonical"]:
-        return False
-    canonical = same_path[0].get("new_canonical") or same_path[0]["canonical"]
     modpath, _, name = canonical.rpartition(".")
     rel = modpath.replace(".", "/")
-    src = case["new"].get(rel + "/__init__.py", case["new"].get(rel + ".py"))
+    src = files.get(rel + "/__init__.py", files.get(rel + ".py"))
     if src is None:
         return False
 
@@ -1877,16 +1870,57 @@ def type_guard_switch_hides_attribute(case: dict, row: dict, allowed: list) -> b
         return False
 
     def binds_in_else(stmts: list) -> bool:
-        # the else branch, or any branch of the `elif` chain it is spelled as
         if binds_attr(stmts):
             return True
         return any(isinstance(st, ast.If) and (binds_attr(st.body) or binds_in_else(st.orelse)) for st in stmts)
 
-    for node in ast.parse(src).body:
-        if isinstance(node, ast.If) and ast.unparse(node.test) in ("TYPE_CHECKING", "typing.TYPE_CHECKING"):
-            if binds_attr(node.body) and binds_in_else(node.orelse):
-                return True
-    return False
+    return any(isinstance(node, ast.If) and ast.unparse(node.test) in ("TYPE_CHECKING", "typing.TYPE_CHECKING")
+               and binds_attr(node.body) and binds_in_else(node.orelse) for node in ast.parse(src).body)
+
+
+def module_has_wildcard_import(files: dict, path: str) -> bool:
+    """The module holding the public path `path` (module.name) contains a `from ... import *` statement."""
+    import ast
+
+    rel = path.rpartition(".")[0].replace(".", "/")
+    src = files.get(rel + "/__init__.py", files.get(rel + ".py"))
+    return src is not None and any(isinstance(n, ast.ImportFrom) and any(a.name == "*" for a in n.names) for n in ast.walk(ast.parse(src)))
+
+
+def type_guard_switch_hides_attribute(case: dict, row: dict, allowed: list) -> bool:
+    """Classifier of ID_GUARD_SWITCH, soundness form (tight: every clause is read from the case's own sources).
+
+    The unjustified 'removed' is reported on a re-export path of an object that still exists in the new version but
+    changed kind there (an allowed difference of kind 're-kinded' on that very path), and in the NEW sources the module
+    defining it binds the name as an attribute in every branch of a TYPE_CHECKING switch: Griffe keeps the first
+    (type-guarded) binding, flags the attribute as not available at runtime, and wildcard imports of the module no
+    longer deliver it."""
+    same_path = [d for d in allowed if d["path"] == row["path"] and d["kind"] == "Public object points to a different kind of object"]
+    if not same_path or row["path"] == row["canonical"]:
+        return False
+    return switch_bound_attribute(case["new"], same_path[0].get("new_canonical") or same_path[0]["canonical"])
+
+
+def type_guard_switch_hid_old_attribute(case: dict, canonical: str, paths: list) -> bool:
+    """Classifier of ID_GUARD_SWITCH, completeness form: a removal / re-kinding / value change is not reported on
+    re-export paths only (never the definition's own path), each of those paths lies in a module with a wildcard import,
+    and in the OLD sources the defining module binds the name as an attribute in every branch of a TYPE_CHECKING switch:
+    the old tree never held those paths, so nothing can be reported on them."""
+    return (bool(paths) and canonical not in paths and all(module_has_wildcard_import(case["old"], p) for p in paths)
+            and switch_bound_attribute(case["old"], canonical))
+
+
+def plain_difference_is_guard_switch(case: dict, rows: list, rows_plain: list) -> bool:
+    """Classifier of ID_GUARD_SWITCH, metamorphic form: the spelling with compound statements reports a subset of what
+    the plain spelling reports, and every report it lacks is on a re-export path (in a module with a wildcard import) of
+    an object whose defining module, in the old sources spelled with compound statements, binds it as an attribute in
+    every branch of a TYPE_CHECKING switch."""
+    seen = {(r["kind"], r["path"]) for r in rows}
+    missing = [r for r in rows_plain if (r["kind"], r["path"]) not in seen]
+    extra = [r for r in rows if (r["kind"], r["path"]) not in {(q["kind"], q["path"]) for q in rows_plain}]
+    return (bool(missing) and not extra
+            and all(r["path"] != r["canonical"] and module_has_wildcard_import(case["old"], r["path"])
+                    and switch_bound_attribute(case["old"], r["canonical"]) for r in missing))
 
 
 def cli_exit(old_files: dict, new_files: dict) -> tuple[int, int, str]:
@@ -2018,7 +2052,8 @@ def judge_case(rec, case: dict, with_cli: bool) -> None:  # noqa: ANN001, C901
                 if seen != seen_plain:
                     res = ("the two versions spelled with their definitions inside compound statements (each runs exactly once at import time) "
                            "and spelled with the same definitions at the top level give different reports",
-                           {"with_compound_statements": seen}, {"plain": seen_plain})
+                           {"with_compound_statements": seen}, {"plain": seen_plain},
+                           ID_GUARD_SWITCH if plain_difference_is_guard_switch(case, rows, rows_plain) else None)
                 elif rows:
                     rec.count("non_empty_reports_equal_in_both_spellings")
             if with_cli:
